@@ -69,6 +69,13 @@ class Ctx:
             return True
         if go.startswith("SKIP") and lean.startswith("SKIP"):
             return True            # both sides decline the case (cyclic / too big); the reason text is not compared
+        if case.startswith("dech") and go.startswith("ERR") and " ; " in go and " ; " in lean and \
+                go.split(" ; ", 1)[0] == lean.split(" ; ", 1)[0] and _top_level(go.split(" ; ", 1)[1]) == _top_level(lean.split(" ; ", 1)[1]):
+            # the same error after the same number of PersistentLoad calls: the hook arguments are rendered AFTER the run, and a
+            # container among them may have been partly filled by the instruction that failed (SETITEMS assigns pair by pair in the
+            # code, all or nothing in the model) - what containers hold after a failed Decode is no property's subject
+            self.count("hook-log after a failed Decode: error and call count compared")
+            return True
         if self._alias_sensitive(case, lean):
             self.count("alias-sensitive(K1): not compared")
             return True
@@ -99,6 +106,20 @@ class Ctx:
                     return False
                 return again == lean and a != r
         return False
+
+
+def _top_level(rendered):
+    """Number of top-level values in a space-separated rendering (tokens ending in `(` open, `)` closes)."""
+    depth = n = 0
+    for t in rendered.split():
+        if t == ")":
+            depth -= 1
+        else:
+            if depth == 0:
+                n += 1
+            if t.endswith("("):
+                depth += 1
+    return n
 
 
 def run_check(check, tier, seed, replay=None):
